@@ -362,6 +362,37 @@ def fam_overlap3(c, tier):
             "judge_space": True, "extra_scales": (), "group_tree": True}
 
 
+def fam_noflow(c, tier):
+    """boxes_flow=None: boxes of different heights side by side (and optionally a third one below), bottoms level or offset;
+    documented order: by the position of the bottom-left corner"""
+    nl = c.pick([1, 2, 3], "lines in the left box")
+    nr = c.pick([3, 1, 2], "lines in the right box")
+    off = c.pick([0, 4, -4, 14, -14], "bottom of the right box relative to the left one")
+    third = c.pick([0, 1, 2], "lines in a third box below (0 = none)")
+    letters = "abcdefghijklmnopqrstuvwxyz"
+    cells = []
+    k = 0
+
+    def cell(u0, bottom, n):
+        nonlocal k
+        gl = []
+        for ln in range(n):          # top line first; lines 10 apart (gap 2 < line_margin * 8): one box
+            gl += _line(letters[k:k + 2], u0, u0 + 16, bottom + 10 * (n - 1 - ln), 8)
+            k += 2
+        return gl
+
+    cells.append(cell(0, 0, nl))
+    cells.append(cell(80, off, nr))
+    if third:
+        cells.append(cell(40, -60, third))
+    perm = c.pick(list(itertools.permutations(range(len(cells)))), "content order")
+    glyphs = []
+    for i in perm:
+        glyphs += cells[i]
+    return {"family": "noflow", "glyphs": glyphs, "params": (Q(1, 2), Q(1), Q(1, 2), Q(1, 4), None), "judge_space": True,
+            "extra_scales": (), "bottom_left_order": True}
+
+
 def fam_chain_in_figure(c, tier):
     g = fam_chain(c, tier)
     g["family"] = "chain-in-figure"
@@ -381,6 +412,7 @@ FAMILIES = {
     "triple-back": (fam_triple_back, lambda t: [2, 2], "HV"),
     "hline-then-cross": (fam_hline_then_cross, lambda t: [2, 2, 2], "HV"),
     "overlap3": (fam_overlap3, lambda t: [3, 8], "H"),
+    "noflow": (fam_noflow, lambda t: [3, 3], "H"),
     "chain-in-figure": (fam_chain_in_figure, lambda t: [27, len(CHAIN_GAPS) + 3] if t == "thorough" else [8, len(CHAIN_GAPS)], "H"),
 }
 
@@ -394,7 +426,7 @@ META = {
         "(two lines: vertical gap, height difference and start/end/centre offsets each on/below/above line_margin*height "
         "of the viewing line, either line viewing, either content order; neighbours-by-half-a-unit also translated so that the near edge lies on a line of Plane's 50-unit grid; proper-overlap shift family); chain (three lines of "
         "heights 8/16 with gaps around both tolerances, all 6 content orders: connected components of an asymmetric "
-        "relation); chain-in-figure (the chain arrangements as the content of a figure on a page that has no glyph of its own, all_texts=True: same expected grouping); hline-then-cross (a line of 2-3 glyphs followed by a glyph directly below/above its last or first glyph with along-overlap and across-distance on/below/above the thresholds, detect_vertical=True, both writing directions: only the determinate half -- a line holds only consecutive glyphs joined by its own direction's predicate -- is judged); overlap3 (a huge glyph, a small glyph inside it and a caption overlapping its edge, char_margin = line_margin = 0, all content orders: the closest pair, distance = bounding area minus both areas, must be merged first in page.groups); triple-back (second glyph placed back over a wide first glyph, third glyph with its gap to the second on/below/above both margins); columns (1-2 columns x 1-3 rows, 1-2 lines per cell, single column also with a wide top cell, boxes_flow {1/4,1/2,3/4,0,0.0,-0.0,+1,-1}, content orders). Every "
+        "relation); chain-in-figure (the chain arrangements as the content of a figure on a page that has no glyph of its own, all_texts=True: same expected grouping); hline-then-cross (a line of 2-3 glyphs followed by a glyph directly below/above its last or first glyph with along-overlap and across-distance on/below/above the thresholds, detect_vertical=True, both writing directions: only the determinate half -- a line holds only consecutive glyphs joined by its own direction's predicate -- is judged); overlap3 (a huge glyph, a small glyph inside it and a caption overlapping its edge, char_margin = line_margin = 0, all content orders: the closest pair, distance = bounding area minus both areas, must be merged first in page.groups); noflow (boxes_flow=None: two boxes of 1-3 lines side by side with level or offset bottoms, optionally a third box below, all content orders: output order must be by bottom edge downwards, equal bottoms left to right, as documented for None); triple-back (second glyph placed back over a wide first glyph, third glyph with its gap to the second on/below/above both margins); columns (1-2 columns x 1-3 rows, 1-2 lines per cell, single column also with a wide top cell, boxes_flow {1/4,1/2,3/4,0,0.0,-0.0,+1,-1}, content orders). Every "
         "family except columns is run in horizontal writing (detect_vertical=False) and mirrored into vertical writing "
         "(detect_vertical=True). Every arrangement is analysed at scale 1 and at 2^k, k in {-3,-1,1,4} (k=7 and k=10 on "
         "stated sub-families). A case is one arrangement with its LAParams (distinct by construction); non-trivial = the "
@@ -412,7 +444,7 @@ META = {
         "pairs of consecutive glyphs that satisfy the joining predicate of the *other* writing direction under detect_vertical are not judged (documentation silent)",
         "in vertical writing, the box relation of single-glyph lines is not judged (the implementation makes them horizontal lines; documentation silent)",
         "space insertion is not judged for glyph pairs placed right-to-left in content order (the documentation defines no signed gap)",
-        "the group tree is judged only in overlap3 and only where the documented closest-first rule is not overridden by the implementation's undocumented postponement of pairs with a box in between; box order is judged only on column grids: full column-major order for |boxes_flow| < 1 (incl. 0, 0.0, -0.0), only top-to-bottom within each column for +1, only left-column-first for -1; hierarchical group shape is only compared across scales",
+        "the group tree is judged only in overlap3 and only where the documented closest-first rule is not overridden by the implementation's undocumented postponement of pairs with a box in between; box order is judged only on column grids and, for boxes_flow=None, in the noflow family (horizontal boxes only; the documentation is silent on vertical ones): full column-major order for |boxes_flow| < 1 (incl. 0, 0.0, -0.0), only top-to-bottom within each column for +1, only left-column-first for -1; hierarchical group shape is only compared across scales",
         "ties between equal box distances are broken by id() (memory address) in group_textboxes -- run-to-run dependence is C12's "
         "subject; the harness substitutes a first-asked counter for the name `id` inside pdfminer.layout so that runs are reproducible",
         "scale factors beyond 2^4 are explored only on small sub-families because Plane's fixed grid size makes the analysis cost grow with the square of the scale",
@@ -456,6 +488,8 @@ def materialise(gen, orient):
         case["in_figure"] = True
     if gen.get("group_tree"):
         case["group_tree"] = True
+    if gen.get("bottom_left_order"):
+        case["bottom_left_order"] = True
     if "column_major" in gen:
         case["column_major"] = gen["column_major"]
         case["cell_cols"] = gen["cell_cols"]
@@ -540,7 +574,7 @@ def judge(case):
     problems = []
     notj = []
     rd, lines, boxes, cross = expected(case)
-    nontrivial = any(len(l[0]) > 1 for l in lines) or any(len(b) > 1 for b in boxes) or (case["family"] == "columns" and len(boxes) > 1) or bool(case.get("group_tree"))
+    nontrivial = any(len(l[0]) > 1 for l in lines) or any(len(b) > 1 for b in boxes) or (case["family"] == "columns" and len(boxes) > 1) or bool(case.get("group_tree")) or bool(case.get("bottom_left_order"))
     try:
         base = run_impl(case, 0)
     except FigureNotAnalysed as e:
@@ -736,6 +770,19 @@ def compare(case, rd, lines, boxes, obs, notj):
                 {"boxes": obs_bx, "lines": found[:2] if found else None},
             )
         )
+        return problems
+    # ---- 5a. boxes_flow=None: documented order = position of the bottom-left corner (bottom edge from the top of the
+    # page downwards, equal bottoms left to right)
+    if case.get("bottom_left_order"):
+        exp_order = []
+        for b in boxes:
+            y0 = min(lines[i][2][1] for i in b)
+            x0 = min(lines[i][2][0] for i in b)
+            exp_order.append(((-y0, x0), tuple(sorted(g for i in b for g in lines[i][0]))))
+        want = [t for _, t in sorted(exp_order)]
+        got = [tuple(sorted(i for ln in b[1] for i in ln[1])) for b in obs_boxes]
+        if got != want:
+            problems.append(("C09/box-order:boxes_flow=None-not-by-bottom-left-corner", want, got))
         return problems
     # ---- 5. order of boxes on a column grid
     if "column_major" in case:
